@@ -164,6 +164,16 @@ func (e fixEvaluator) AddScaled(op0, op1, opOut *rlwe.Ciphertext) {
 	e.r.Add(op0.Value[0], op1.Value[0], opOut.Value[0])
 }
 
+// READONLY control: a method scales the precomputed table through a local view
+type Table struct{ consts []uint64 }
+
+func (t *Table) Scale(x []uint64) {
+	acc := t.consts
+	for i := range x {
+		acc[i] *= x[i]
+	}
+}
+
 // OUTREAD control: the second component of the output is a source before anything wrote it
 func (e fixEvaluator) Fold(op0 *rlwe.Ciphertext, opOut *rlwe.Ciphertext) {
 	e.r.Add(op0.Value[0], op0.Value[1], opOut.Value[0])
@@ -174,6 +184,38 @@ func (e fixEvaluator) Fold(op0 *rlwe.Ciphertext, opOut *rlwe.Ciphertext) {
 func (e fixEvaluator) Twice(op0, op1, opOut *rlwe.Ciphertext) {
 	e.r.Add(op0.Value[0], op1.Value[0], opOut.Value[0])
 	e.r.Add(opOut.Value[1], op1.Value[1], opOut.Value[1])
+}
+
+// DEGLOOP control: the last component is never negated
+func (e fixEvaluator) NegHigh(op0, opOut *rlwe.Ciphertext) {
+	for i := 1; i < op0.Degree(); i++ {
+		e.r.Neg(op0.Value[i], opOut.Value[i])
+	}
+}
+
+// LEVELMOD control: multiplies by the full modulus although it works at levelP
+func (e fixEvaluator) ScaleP(levelP int, p rlwe.Parameters, op0 *rlwe.Ciphertext) {
+	e.r.AtLevel(levelP).MulScalarBigint(op0.Value[0], p.RingP().Modulus(), op0.Value[0])
+}
+
+// RNSSTORE control: residues are not reduced
+func rnsBad(r *ring.Ring, v uint64) (rns ring.RNSScalar) {
+	rns = make(ring.RNSScalar, r.Level()+1)
+	for i := range rns {
+		rns[i] = v
+	}
+	return
+}
+
+// RNDADVANCE control: the same byte serves every iteration
+func rndBad(prng sampling.PRNG, out []uint64) {
+	randomBytes := make([]byte, 8)
+	if _, err := prng.Read(randomBytes); err != nil {
+		panic(err)
+	}
+	for i := range out {
+		out[i] = uint64(randomBytes[0]>>(i&7)) & 1
+	}
 }
 
 // LANE control: lane 2 reads x[3]
